@@ -9,6 +9,7 @@ against a given shape (the validator model infers a shape bottom-up with `shapeO
 which leaves are float compatible.
 -/
 import MagpyVerif.Model.Validators
+import MagpyVerif.Model.CallArgs
 
 namespace MagpyVerif.Valid
 
@@ -201,5 +202,56 @@ def docOrientation (isAttr : Bool) : PyVal → Bool
 the array and `shape` have, a given size must be matched -/
 def shapeAgrees (sh : List Nat) (shape : List (Option Nat)) : Prop :=
   ∀ (i d k : Nat), sh[i]? = some d → shape[i]? = some (some k) → d = k
+
+/-! ### arguments that are not attribute values: pixel_agg, field_func, TriangularMesh modes, in_out, sumup / squeeze, style -/
+
+/-- documented: "pixel_agg: str, default None — reference to a compatible numpy aggregator function like 'min' or 'mean'": `None`, or the name of
+a numpy function that reduces the pixel axes, both ways `getBH_level2` calls it (over a tuple of axes / over one axis) -/
+def docPixelAgg (tbl : NpTable) : PyVal → Bool
+  | .none => true
+  | .str s =>
+    match npLookup tbl s with
+    | some (_, kind, _, axTuple, axInt) => kind == "number" && axTuple && axInt
+    | Option.none => false
+  | _ => false
+
+def ffOutDoc : FFOut → Bool
+  | .none => true
+  | .array sh => sh == [2, 3]
+  | _ => false
+
+/-- documented (CustomSource): "field_func: callable, default None — must have the two positional arguments `field` and `observers`; with
+field='B' or 'H' the field must be returned (or None) as ndarray of shape (n,3) for observers of shape (n,3)" — on the test input of two
+observers -/
+def docFieldFunc : FFVal → Bool
+  | .none => true
+  | .func args b h => args.take 2 == ["field", "observers"] && ffOutDoc b && ffOutDoc h
+  | _ => false
+
+/-- documented (TriangularMesh): mode is "warn", "raise", "ignore" or "skip"; `True` translates to "warn" and `False` to "skip" -/
+def docMode : PyVal → Option Mode
+  | .str s => if s == "warn" then some .warn else if s == "raise" then some .raise else if s == "ignore" then some .ignore
+              else if s == "skip" then some .skip else Option.none
+  | .bool true => some .warn
+  | .bool false => some .skip
+  | _ => Option.none
+
+/-- documented: "in_out: {'auto', 'inside', 'outside'}" -/
+def docInOut : PyVal → Option IOEff
+  | .str s => if s == "auto" then some .auto else if s == "inside" then some .inside else if s == "outside" then some .outside else Option.none
+  | _ => Option.none
+
+/-- documented: "sumup: bool", "squeeze: bool" -/
+def docFlag : PyVal → Option Bool
+  | .bool b => some b
+  | _ => Option.none
+
+/-- documented: "style: dict" (constructor), "Input must be in the form of a style dictionary" (property); `None` is the default and an object
+of the class's own style class is what the getter returns -/
+def docStyle : StyleArg → Bool
+  | .none => true
+  | .dict Option.none => true
+  | .styleObj true => true
+  | _ => false
 
 end MagpyVerif.Valid
